@@ -686,13 +686,13 @@ where
                                     });
                                 };
                                 // we can delete the buffered_lcs elem now:
-                                assert!(
-                                    buffered_lcs.contains(&lc2.id),
-                                    "buffered_lcs does not contain {} msg:{:?}",
-                                    lc2.id,
-                                    msg
-                                ); // logical error otherwise (prev lc still buffered but the newer one that is to be merged into the prev one not?)
-                                buffered_lcs.remove(&lc2.id);
+                                // The newer lc might have been confirmed (and published) already while the prev one is
+                                // still buffered (e.g. by the max-min timestamp rule). None of its msgs have been
+                                // forwarded yet as the msgs of the still buffered prev lc are queued before them.
+                                // So it can still be merged but needs to be removed from the published lifecycles:
+                                if !buffered_lcs.remove(&lc2.id) {
+                                    lcs_w.empty(lc2.id);
+                                }
                                 remove_last_lc = true;
                                 // if we have no more yet, send the other msgs: (not possible as prev_lc exists)
                             } else {
